@@ -192,6 +192,10 @@ func ScanSnapshot(in io.Reader, prefix io.Writer, opts *Opts) (*Snapshot, []byte
 			}
 		}
 	}
+	if s.state == done && suffix == nil {
+		// The closing line was consumed; hand back what was read past it.
+		suffix = append(suffix, r.buffered()...)
+	}
 	if s.Goroutines != nil {
 		if opts.NameArguments {
 			nameArguments(s.Goroutines)
